@@ -450,6 +450,10 @@ var connSerial int
 // prepareSymlinkedOut makes prepareConn reach the output directory through symbolic links.
 var prepareSymlinkedOut bool
 
+// prepareOutName, when set, is the name prepareConn gives the output directory (names that mean
+// something to pattern matching: brackets, stars, question marks).
+var prepareOutName string
+
 // prepareRelativeOut makes prepareConn configure a relative output-dir (see there).
 var prepareRelativeOut bool
 
@@ -462,6 +466,9 @@ func prepareConn(scratch string, cfg *pConfig, cam pCamera) (*connRun, error) {
 	connSerial++
 	dir := filepath.Join(scratch, fmt.Sprintf("conn%06d", connSerial))
 	r := &connRun{Dir: dir, ConfDir: filepath.Join(dir, "etc"), OutDir: filepath.Join(dir, "out"), Cfg: cfg, Cam: cam}
+	if prepareOutName != "" {
+		r.OutDir = filepath.Join(dir, prepareOutName)
+	}
 	if err := os.MkdirAll(r.ConfDir, 0755); err != nil {
 		return nil, err
 	}
@@ -546,7 +553,7 @@ func (r *connRun) serve(feed func(w io.Writer) error, hookFn func(string)) {
 				done <- fmt.Errorf("PANIC in handleConn: %v\n%s", p, vTrimStack(debug.Stack()))
 			}
 		}()
-		done <- handleConn(b, r.Conf)
+		done <- handleConn(&scaledDeadlineConn{Conn: b}, r.Conf)
 	}()
 	r.WriteErr = feed(a)
 	a.Close()
@@ -720,3 +727,27 @@ func seqsString(s []int) string {
 }
 
 var _ = bytes.NewReader
+
+// scaledDeadlineConn shortens every read/write deadline the code under test arms by a factor
+// of 30 (a 30 s timeout expires after 1 s of harness time); code that arms none - the unchanged
+// daemon - never notices. It lets "the camera went quiet for longer than the timeout" be
+// played in seconds.
+type scaledDeadlineConn struct{ net.Conn }
+
+const deadlineScale = 30
+
+func scaleDeadline(t time.Time) time.Time {
+	if t.IsZero() {
+		return t
+	}
+	return time.Now().Add(time.Until(t) / deadlineScale)
+}
+func (c *scaledDeadlineConn) SetDeadline(t time.Time) error {
+	return c.Conn.SetDeadline(scaleDeadline(t))
+}
+func (c *scaledDeadlineConn) SetReadDeadline(t time.Time) error {
+	return c.Conn.SetReadDeadline(scaleDeadline(t))
+}
+func (c *scaledDeadlineConn) SetWriteDeadline(t time.Time) error {
+	return c.Conn.SetWriteDeadline(scaleDeadline(t))
+}
